@@ -6,6 +6,7 @@ import gen
 import witnesses as W
 from engine import Check
 from edgegraph.structure import Universe, TwoEndedLink
+from edgegraph.structure.universe import UniverseLaws
 
 
 def sizes(tier):
@@ -395,6 +396,60 @@ class C19(StructBase):
                 yield gen.random_history(rng, real, fn, rng.randint(3, sz["rlen"]), extra=with_edits)
         finally:
             real.inner.keep_mode = False
+
+    def extra_violations(self, stats):
+        """the caller keeps only the LAW SETS (universes built in place: `L.applies_to = Universe()`,
+        `Universe(laws=L)` not bound to a name): every assignment must still have succeeded when it is read back
+        through the law set — `L.applies_to` is the universe that was assigned and `L.applies_to.laws is L`"""
+        import gc
+        import random as _r
+        import weakref
+        from engine import Violation
+        rng = _r.Random(1907)
+        out, probes = [], 0
+        for _ in range(300):
+            laws = [UniverseLaws() for _ in range(2)]
+            want = [None, None]          # weak handle on the universe each law set should apply to
+            hist = []
+            for _s in range(rng.randint(1, 8)):
+                i = rng.randrange(2)
+                r = rng.random()
+                if r < 0.35:
+                    hist.append("L%d.applies_to = Universe()" % i)
+                    laws[i].applies_to = Universe()
+                    want[i] = weakref.ref(laws[i].applies_to) if laws[i].applies_to is not None else "lost"
+                elif r < 0.6:
+                    hist.append("Universe(laws=L%d)" % i)
+                    Universe(laws=laws[i])
+                    want[i] = weakref.ref(laws[i].applies_to) if laws[i].applies_to is not None else "lost"
+                elif r < 0.75:
+                    hist.append("L%d.applies_to = None" % i)
+                    laws[i].applies_to = None
+                    want[i] = None
+                elif r < 0.9 and laws[1 - i].applies_to is not None:
+                    hist.append("L%d.applies_to = L%d.applies_to" % (i, 1 - i))
+                    laws[i].applies_to = laws[1 - i].applies_to
+                    want[i], want[1 - i] = weakref.ref(laws[i].applies_to) if laws[i].applies_to is not None else "lost", None
+                else:
+                    hist.append("gc.collect()")
+                    gc.collect()
+                probes += 1
+                msg = None
+                for j in range(2):
+                    got = laws[j].applies_to
+                    if want[j] is None:
+                        if got is not None:
+                            msg = "L%d.applies_to should be None" % j
+                    elif want[j] == "lost" or got is None or want[j]() is not got:
+                        msg = "L%d.applies_to reads %r: the assignment did not stick (the law set is the caller's only handle on that universe)" % (j, got)
+                    elif got.laws is not laws[j]:
+                        msg = "L%d.applies_to.laws is not L%d" % (j, j)
+                if msg:
+                    if len(out) < 3:
+                        out.append(Violation("oracle", "after [%s]: %s" % ("; ".join(hist), msg), ["sweep:laws-only handles: " + "; ".join(hist)]))
+                    break
+        stats.extra["laws_only_handle_probes"] = probes
+        return out
 
     def pre(self, real, line):
         from adapter import rules_index
